@@ -295,11 +295,30 @@ func BuildUnion(query *Query, expr *sqlparser.Union) error {
 
 // Executes one branch of a union. A branch is a select statement or, for chains
 // of three or more branches, another union
+// The CTEs of an enclosing WITH followed by the statement's own
+func MergeWith(outer *sqlparser.With, own *sqlparser.With) *sqlparser.With {
+	if outer == nil || outer == own {
+		return own
+	}
+	if own == nil {
+		return outer
+	}
+	merged := &sqlparser.With{Recursive: outer.Recursive || own.Recursive}
+	merged.CTEs = append(merged.CTEs, outer.CTEs...)
+	merged.CTEs = append(merged.CTEs, own.CTEs...)
+	return merged
+}
+
 func ExecUnionBranch(query *Query, statement sqlparser.TableStatement, with *sqlparser.With) ([]any, error) {
-	switch statement.(type) {
-	case *sqlparser.Select, *sqlparser.Union:
+	// a branch sees the CTEs of the union and keeps its own
+	switch branch := statement.(type) {
+	case *sqlparser.Select:
 		{
-			statement.SetWith(with)
+			branch.SetWith(MergeWith(with, branch.With))
+		}
+	case *sqlparser.Union:
+		{
+			branch.SetWith(MergeWith(with, branch.With))
 		}
 	default:
 		{
